@@ -96,11 +96,15 @@ Definition linspace (start stop : T) (num : nat) (endpoint : bool) : list T :=
 
 (* ============================================================ SO(3) grids *)
 (* _euler_angles_haar_measure: np.array(np.meshgrid(alpha, beta, gamma)).T.reshape(-1, 3)
-   runs gamma slowest, then alpha, beta fastest *)
+   runs gamma slowest, then alpha, beta fastest;
+   beta = arccos(linspace(1, -1, num=half_steps + 1, endpoint=True)): both poles
+   Phi = 0 and Phi = pi are rows of the grid *)
+Definition haar_euler_beta (n : nat) : list T :=
+  map (o_acos O) (linspace c1 (o_ofZ O (-1)) (S (Nat.div2 n)) true).
+
 Definition haar_euler_angles (n : nat) : list vecT :=
-  let half := Nat.div2 n in
   let alpha := linspace c0 twopi n false in
-  let beta := map (o_acos O) (linspace c1 (o_ofZ O (-1)) half false) in
+  let beta := haar_euler_beta n in
   flat_map (fun g => flat_map (fun a => map (fun b => (a, b, g)) beta) alpha) alpha.
 
 Definition haar_euler_grid (n : nat) : list quatT := map (eu2qu O) (haar_euler_angles n).
@@ -148,16 +152,21 @@ Definition cubo_point (x y z : T) : quatT :=
 
 Definition max_abs3 (x y z : T) : T := o_max O (o_max O (o_abs O x) (o_abs O y)) (o_abs O z).
 
+(* guard of the loop:  np.max(np.abs(xyz)) > semi_edge_length + 1e-8  *)
 Definition cubo_cell (step : T) (i j k : Z) : list quatT :=
   let x := o_mul O (o_ofZ O i) step in
   let y := o_mul O (o_ofZ O j) step in
   let z := o_mul O (o_ofZ O k) step in
-  if o_ltb O semi_edge_length (max_abs3 x y z) then [] else [cubo_point x y z].
+  if o_ltb O (o_add O semi_edge_length (o_ofQ O 1 100000000)) (max_abs3 x y z)
+  then [] else [cubo_point x y z].
 
-Definition cubochoric_grid (N : Z) : list quatT :=
-  let step := o_div O semi_edge_length (o_ofZ O N) in
+(* the three nested loops for a given step_size *)
+Definition cubochoric_loop (step : T) (N : Z) : list quatT :=
   let idx := zrange (- N + 1) (N + 1) in
   flat_map (fun i => flat_map (fun j => flat_map (fun k => cubo_cell step i j k) idx) idx) idx.
+
+Definition cubochoric_grid (N : Z) : list quatT :=
+  cubochoric_loop (o_div O semi_edge_length (o_ofZ O N)) N.
 
 (* ======================================================= regions and filters *)
 (* OrientationRegion.__gt__ (called for  rot < region):
